@@ -283,6 +283,9 @@ func (s Schema) jsonTree(t Term, format, refPrefix string) *om {
 		key := "oneOf"
 		if t.K == "inter" {
 			key = "allOf"
+		} else if t.A == "anyOf" {
+			// a disjunction whose branches overlap (`const | type`): only anyOf accepts the shared values
+			key = "anyOf"
 		}
 		m.set(key, bs)
 		if t.Disc && oapi {
